@@ -2,6 +2,7 @@
 package main
 
 import (
+	"go/constant"
 	"fmt"
 	"go/token"
 	"go/types"
@@ -22,10 +23,16 @@ func checkC02(c *Ctx) {
 	c.Rule("C02/R6", "the key/value line recogniser applies exactly the documented predicates (lower-case first rune, no space or upper case in the key, ':' after position 0, blank or tab separated value) — and agrees with the legacy recogniser")
 
 	c.Rule("C02/R7", "measurements: the integer fast path of the measurement parser is exact (same rule as C03/R2: digits only, the accumulator guarded so that the multiply-add cannot overflow, everything else handed to the full parser)")
+	c.Rule("C02/R10", "every other line reaches the recogniser: each path through one iteration of the scanning loop calls one of the three line parsers (benchmark, unit, key/value); no extra pre-test decides that a line cannot be configuration")
+	c.Rule("C02/R11", "malformed unit lines: a unit metadata field is recorded only on paths that established a non-empty key (text before '=')")
+	c.Rule("C02/R9", "measurements: each measurement is recorded under Tidy's unit with the pair as written kept alongside exactly when the unit was rewritten (string comparison of the units; same rule as C04/R1)")
 	c.Rule("C02/R8", "file labels: in Files.init an input is counted towards 'same path given more than once' exactly when it carries no explicit label, which is exactly the set of inputs the disambiguation loop may relabel; a labelled input keeps the user's label")
 
 	p := mustLoad(c, loadOpts{}, "./benchfmt", "./storage/benchfmt")
 	c03FastFloat(c, p, "C02/R7")
+	c02Dispatch(c, p)
+	c02UnitKey(c, p)
+	c04R1(c, p, "C02/R9")
 	c02Labels(c, p)
 	c02Clone(c, p)
 	c02Ownership(c, p)
@@ -785,4 +792,161 @@ func sharedAcrossIterations(fn *ssa.Function, st *ssa.Store) string {
 		}
 	}
 	return ""
+}
+
+// ---- R10, R11 ----
+
+// c02Dispatch: in the scanning loop every line is handed to exactly the recognisers: a path through one iteration
+// that calls none of parseBenchmarkLine / parseUnitLine / parseKeyValueLine has decided the line's fate by some
+// other test (and a configuration line that fails that test is silently dropped).
+func c02Dispatch(c *Ctx, p *Prog) {
+	const R = "C02/R10"
+	fn := p.Method("benchfmt", "Reader", "Scan")
+	if fn == nil {
+		c.Undecided(R, "anchor:Reader.Scan", "", "not found")
+		return
+	}
+	site := p.pos(fn.Pos())
+	n := 0
+	for _, lp := range naturalLoops(fn) {
+		// the line loop: contains the scanner's Bytes call
+		has := false
+		for b := range lp.Blocks {
+			for _, in := range b.Instrs {
+				if _, ok := callIs(in, "bufio", "Scanner", "Bytes"); ok {
+					has = true
+				}
+			}
+		}
+		if !has {
+			continue
+		}
+		start := loopBodyStart(lp)
+		if start == nil {
+			c.Undecided(R, "Scan:line-loop", site, "loop shape not recognised")
+			return
+		}
+		mk := func() *e6Interp { return &e6Interp{PureCall: func(f *types.Func) bool { return false }, MaxAtoms: 18} }
+		outs, why := e6Enumerate(mk, start, lp.Header, iterStop(lp, start), 2048)
+		if why != "" {
+			c.Undecided(R, "Scan:line-loop", site, why)
+			return
+		}
+		for _, o := range outs {
+			recognised := false
+			readLine := false
+			for _, a := range o.Actions {
+				if a.Kind == "call" && a.Callee != nil && a.Callee.Name() == "Bytes" && a.Callee.Pkg() != nil && a.Callee.Pkg().Path() == "bufio" {
+					readLine = true
+				}
+			}
+			if !readLine {
+				continue // the loop condition failed: no line on this path
+			}
+			for _, a := range o.Actions {
+				if a.Kind == "call" && a.Callee != nil && a.Callee.Pkg() != nil && a.Callee.Pkg().Path() == bfPkg {
+					switch a.Callee.Name() {
+					case "parseBenchmarkLine", "parseUnitLine", "parseKeyValueLine":
+						recognised = true
+					}
+				}
+			}
+			n++
+			if !recognised {
+				c.Bad(R, fmt.Sprintf("Scan:unrecognised-path#%d", n), site, "a line can be dropped without having been shown to the key/value recogniser (path: "+truncate(o.AssignStr(), 200)+"): a configuration line that fails this extra test (a key starting with a non-ASCII lower-case letter, say) never sets, replaces or deletes its key")
+			}
+		}
+	}
+	if n > 0 {
+		c.OK(R, "Scan:every-line-recognised", site, fmt.Sprintf("%d paths through one line all reach a line recogniser", n))
+	}
+	c.Floor(R, "paths through the line loop", n, 3)
+}
+
+// c02UnitKey: a unit metadata field is accepted only with a non-empty key.
+func c02UnitKey(c *Ctx, p *Prog) {
+	const R = "C02/R11"
+	fn := p.Method("benchfmt", "Reader", "parseUnitLine")
+	unitsF := p.Field("benchfmt", "Reader", "units")
+	if fn == nil || unitsF == nil {
+		c.Undecided(R, "anchor:Reader.parseUnitLine", "", "not found")
+		return
+	}
+	site := p.pos(fn.Pos())
+	n := 0
+	for _, lp := range naturalLoops(fn) {
+		start := loopBodyStart(lp)
+		var pred *ssa.BasicBlock = lp.Header
+		stop := map[*ssa.BasicBlock]bool{}
+		if start != nil {
+			stop = iterStop(lp, start)
+		} else {
+			start, pred, stop = lp.Header, nil, map[*ssa.BasicBlock]bool{lp.Header: true}
+		}
+		mk := func() *e6Interp { return &e6Interp{PureCall: func(f *types.Func) bool { return true }, MaxAtoms: 18} }
+		outs, why := e6Enumerate(mk, start, pred, stop, 1024)
+		if why != "" {
+			c.Undecided(R, "parseUnitLine:field-loop", site, why)
+			return
+		}
+		for _, o := range outs {
+			// paths that record metadata
+			var keySym *Sym
+			for _, a := range o.Actions {
+				if a.Kind == "mapupdate" && a.Args[0].MentionsField(unitsF) {
+					keySym = a.Args[1]
+				}
+			}
+			if keySym == nil {
+				continue
+			}
+			n++
+			// the key text: the argument of the interning call inside the map key's Key field
+			var keyText *Sym
+			keySym.Walk(func(s *Sym) {
+				if s.Op == "call" && strings.HasSuffix(s.Name, ".intern") && len(s.Args) >= 2 && keyText == nil {
+					keyText = s.Args[len(s.Args)-1]
+				}
+			})
+			nonEmpty := false
+			var bound string
+			if keyText != nil {
+				if keyText.Op == "slice" && len(keyText.Args) >= 3 {
+					bound = keyText.Args[2].String() // f[:eq]
+				}
+				for k, v := range o.Assign {
+					s := o.AtomSyms[k]
+					if s.Op != "binop" || len(s.Args) != 2 {
+						continue
+					}
+					x, y := s.Args[0], s.Args[1]
+					zeroOrOne := func(z *Sym, want int64) bool {
+						if z.isConst() && z.Const != nil && z.Const.Kind() == constant.Int {
+							n, _ := constant.Int64Val(z.Const)
+							return n == want
+						}
+						return false
+					}
+					isLen := func(z *Sym) bool {
+						return z.Op == "call" && z.Name == "len" && len(z.Args) == 1 && z.Args[0].String() == keyText.String()
+					}
+					switch {
+					case bound != "" && x.String() == bound && zeroOrOne(y, 0) && ((s.Tok == token.LEQ && !v) || (s.Tok == token.GTR && v)):
+						nonEmpty = true
+					case bound != "" && x.String() == bound && zeroOrOne(y, 1) && ((s.Tok == token.LSS && !v) || (s.Tok == token.GEQ && v)):
+						nonEmpty = true
+					case bound != "" && y.String() == bound && zeroOrOne(x, 0) && ((s.Tok == token.GEQ && !v) || (s.Tok == token.LSS && v)):
+						nonEmpty = true
+					case isLen(x) && zeroOrOne(y, 0) && ((s.Tok == token.EQL && !v) || (s.Tok == token.NEQ && v) || (s.Tok == token.GTR && v) || (s.Tok == token.LEQ && !v)):
+						nonEmpty = true
+					case isLen(y) && zeroOrOne(x, 0) && ((s.Tok == token.EQL && !v) || (s.Tok == token.NEQ && v) || (s.Tok == token.LSS && v) || (s.Tok == token.GEQ && !v)):
+						nonEmpty = true
+					}
+				}
+			}
+			c.Check(nonEmpty, R, fmt.Sprintf("parseUnitLine:records-metadata#%d", n), site, "metadata is recorded only for a non-empty key",
+				"unit metadata can be recorded under an empty key: a field like \"=lower\" yields a metadata record with key \"\" instead of the positioned 'expected key=value' error (path: "+truncate(o.AssignStr(), 200)+")")
+		}
+	}
+	c.Floor(R, "paths recording unit metadata", n, 1)
 }
